@@ -264,7 +264,7 @@ class ExprCall(Expr):
     @property
     def canonical_path(self) -> str:
         """The canonical path of this subscript's left part."""
-        return self.function.canonical_path
+        return self.function if isinstance(self.function, str) else self.function.canonical_path
 
     def iterate(self, *, flat: bool = True) -> Iterator[str | Expr]:
         yield from _yield(self.function, flat=flat)
@@ -793,7 +793,7 @@ class ExprSubscript(Expr):
         """The canonical path of this subscript's left part."""
         if isinstance(self.left, str):
             return self.left
-        return self.left.canonical_path
+        return self.left if isinstance(self.left, str) else self.left.canonical_path
 
 
 # YORE: EOL 3.9: Replace `**_dataclass_opts` with `slots=True` within line.
